@@ -167,3 +167,69 @@ def fx_closure_with_nonlocal_counter():
             assert ok is want, "%s: reported position == characters written - 1 + offset should be %s" % (name, want)
     finally:
         shutil.rmtree(d)
+
+
+def fx_comprehension_unrolling_on_symbolic_lists():
+    """sum over a nested comprehension with a filter, on a list of symbolic integers under a total order"""
+    from .core import Ctx
+    from .sym import Engine, Hooks, State, Num, Tup
+    from .lin import Lin, ge
+    d = _mk({"__init__.py": "__all__ = []\n", "m.py": """
+        import itertools
+        def inv_a(p):
+            return sum(1 for i, a in enumerate(p) for b in p[i + 1:] if a > b)
+        def inv_b(p):
+            return sum(1 for a, b in itertools.combinations(p, 2) if a > b)
+        def desc(p):
+            return sum(1 for a, b in zip(p, p[1:]) if a > b)
+        """})
+    try:
+        ctx = Ctx(d, "quick")
+        xs = [Lin.var(("x", k)) for k in range(3)]
+        st = State()
+        # x2 < x0 < x1  : permutation with ranks [2, 3, 1] -> 2 inversions, 1 descent
+        st.add_lin(ge(xs[0] - xs[2], 1))
+        st.add_lin(ge(xs[1] - xs[0], 1))
+        want = {"inv_a": 2, "inv_b": 2, "desc": 1}
+        for name, w in want.items():
+            fr = Engine(ctx, Hooks()).run_function(ctx.fn("selfies.m." + name), {"p": Tup([Num(x) for x in xs], "list")}, state=st)
+            vals = {int(v.lin.k) for s, v in fr.returns if isinstance(v, Num) and v.lin.is_const()}
+            assert vals == {w}, "%s: expected %d, got %r" % (name, w, [str(v) for _, v in fr.returns])
+    finally:
+        shutil.rmtree(d)
+
+
+def fx_set_comprehension_is_summarised_like_a_loop():
+    """{f(x) for x in xs if c(x)} over an unknown iterable produces the same hook events as the for/if/add loop"""
+    from .core import Ctx
+    from .sym import Engine, Hooks
+    d = _mk({"__init__.py": "__all__ = []\n", "m.py": """
+        def a(table):
+            return {k + "!" for k, v in table.items() if v > 0}
+        def b(table):
+            out = set()
+            for k, v in table.items():
+                if v > 0:
+                    out.add(k + "!")
+            return out
+        """})
+    try:
+        ctx = Ctx(d, "quick")
+        res = {}
+        for name in ("a", "b"):
+            adds, loops = [], []
+
+            class H(Hooks):
+                def on_call(self, eng, fr, node, callee, args, kwargs, st):
+                    if isinstance(callee, tuple) and callee[0] == "method" and callee[1] == "add":
+                        adds.append(len(args))
+                    return None
+
+                def on_loop(self, eng, fr, node, syms, entered, back, exits, breaks):
+                    loops.append((len(entered), len(back)))
+            Engine(ctx, H()).run_function(ctx.fn("selfies.m." + name), {})
+            res[name] = (len(adds), loops)
+        assert res["a"][0] == res["b"][0] == 1 and len(res["a"][1]) == len(res["b"][1]) == 1, res
+        assert res["a"][1][0][1] == res["b"][1][0][1] == 2, res      # two paths: added / skipped
+    finally:
+        shutil.rmtree(d)
